@@ -110,6 +110,14 @@ REL_KINDS = [
                                       ("cmp", "gt", T.path("c", "score"), T.I(7000 + n)))),
     ("lambda-all", "bool", lambda n: ("lam", I("tags"), "all", "t",
                                       ("cmp", "eq", T.path("t", "label"), T.S("zq%dw" % n)))),
+    # a relation declared with related_name AND a different related_query_name
+    ("lambda-any-query-name", "bool", lambda n: ("lam", I("labels"), "any", "t",
+                                                 ("cmp", "eq", T.path("t", "label"), T.S("zq%dw" % n)))),
+    ("lambda-all-query-name", "bool", lambda n: ("lam", I("labels"), "all", "t",
+                                                 ("cmp", "gt", T.path("t", "weight"), T.I(7000 + n)))),
+    ("lambda-nested-query-name", "bool", lambda n: ("lam", I("comments"), "any", "c",
+                                                    ("lam", T.path("c", "post", "labels"), "any", "t",
+                                                     ("cmp", "eq", T.path("t", "label"), T.S("zq%dw" % n))))),
     ("lambda-path-owner", "bool", lambda n: ("lam", T.path("author", "posts"), "any", "p",
                                              ("cmp", "ge", T.path("p", "rating"), T.I(7000 + n)))),
 ]
